@@ -85,6 +85,17 @@ func traceCLI(o opts) error {
 		{0xff, 0xfe, ' '}, {' ', 0xff}, {0x00}, []byte(" \x00 "), []byte("multi\nline\n"), {0xc3, 0x28, '\n'},
 		[]byte("é"), []byte(" é "), []byte("​zero-width"), // U+200B is not White_Space
 	}
+	// longer than any prefix a text/binary sniffer might look at (512, 1024, 4096 bytes): text with
+	// a multi-byte character across the boundary, and binary data that only turns invalid after it
+	for _, k := range []int{512, 1024, 4096} {
+		a := strings.Repeat("a", k-1)
+		values = append(values,
+			[]byte(" "+a[1:]+"é"+strings.Repeat("b", 90)+"\n"),  // é occupies bytes k-1 and k
+			[]byte(a[:k-2]+"日"+strings.Repeat("c", 40)+" \n"), // 日 occupies bytes k-2..k
+			append([]byte(" "+a+"tail"), 0xff, 0xfe, ' ', '\n'), // valid for the first k bytes and more, then not
+			append(append([]byte("\t"), bytes.Repeat([]byte("é"), k)...), 0x80, '\n'),
+			[]byte(" "+strings.Repeat("plain text ", k/8)+"\n"))
+	}
 	for i := 0; i < o.n; i++ {
 		v := make([]byte, r.Intn(40))
 		r.Read(v)
